@@ -99,6 +99,16 @@ RejTag(D, k, b) ==
          (IF k \in {"SR", "RR", "SDES", "BYE"} THEN "C04:inflated_count_accepted" ELSE "C04:short_packet_accepted")
   ELSE "C07:foreign_accepted"
 
+\* REMB tables (C14): out[i] is the library's decoding of (exp, ms[i]), or
+\* its (ok, ex, m) for the float brs[i]
+RembDecTags(D, exp, ms, out) ==
+  IF Len(out) # Len(ms) THEN {"C14:decode"}
+  ELSE IF \E i \in 1..Len(ms) : out[i] # RembFloat(D, exp, ms[i]) THEN {"C14:decode"} ELSE {}
+RembEncTags(brs, out) ==
+  IF Len(out) # Len(brs) THEN {"C14:encode"}
+  ELSE (IF \E i \in 1..Len(brs) : FiniteNonNeg(brs[i]) /\ (~out[i].ok \/ [ex |-> out[i].ex, m |-> out[i].m] # RembPair(brs[i])) THEN {"C14:encode"} ELSE {})
+       \cup (IF \E i \in 1..Len(brs) : IsNegative(brs[i]) /\ out[i].ok THEN {"C14:negative_accepted"} ELSE {})
+
 \* C13 on every buffer the library accepts as TransportLayerCC, valid or not:
 \* an independent expansion of the raw bytes inside the declared length.
 \* Chunks or deltas that do not fit the declared length must be refused; if
